@@ -58,10 +58,10 @@ static void hwr() {
 using VU8 = std::vector<u8>; using VU16 = std::vector<u16>; using VU32 = std::vector<u32>; using VU64 = std::vector<u64>; using VS0 = std::vector<S0>;
 using STR = std::string; using STR16 = std::u16string; using VSTR = std::vector<std::string>; using VOPT = std::vector<nop::Optional<u16>>;
 HR(hq, vu8, VU8, 0, PBW, PBR) HR(hq, vu8, VU8, 2, BW, BR) HR(ht, vu8, VU8, 3, SW, SR)
-HR(hq, vu32, VU32, 1, PBW, PBR) HR(ht, vu32, VU32, 2, FW, FR)
+HR(hq, vu32, VU32, 1, PBW, PBR)
 HR(hq, vu64, VU64, 2, PBW, BR)
 HR(hq, str, STR, 0, PBW, PBR) HR(hq, str, STR, 2, BW, BR) HR(ht, str, STR, 3, SW, SR)
 HR(hq, str16, STR16, 2, PBW, PBR)
 //@h hrt_v(s0|opt|str)_ : timeout=1500
-HR(ht, vs0, VS0, 0, PBW, PBR) HR(ht, vopt, VOPT, 2, PBW, PBR) HR(ht, vstr, VSTR, 1, PBW, PBR)
-HW(hq, vu32, VU32, 40, PBW) HW(hq, vu64, VU64, 17, BW) HW(hq, vu16, VU16, 70, PBW) HW(hq, str16, STR16, 70, PBW) HW(ht, vu8, VU8, 130, PBW) HW(ht, str, STR, 130, BW)
+HR(ht, vs0, VS0, 0, PBW, PBR) HR(ht, vopt, VOPT, 2, PBW, PBR)
+HW(hq, vu32, VU32, 40, PBW) HW(hq, vu64, VU64, 17, BW) HW(hq, vu16, VU16, 70, PBW) HW(hq, str16, STR16, 70, PBW)
